@@ -120,6 +120,10 @@ def arity_probe(rec, c):
     from jaqalpaq.core import Circuit, GateStatement
 
     out = []
+    # the wrappers carry ordinary macro names (ones this circuit does not use, other programs of the run do): whatever a
+    # refused expansion leaves behind under such a name meets a valid program soon
+    free = [nm for nm in gen.MACRO_NAMES if nm not in c.macros and "." not in nm] + ["vfwrap1", "vfwrap2"]
+    wn1, wn2 = free[0], free[1]
     for name, macro in c.macros.items():
         n = len(macro.parameters)
         for k in (n - 1, n + 1):
@@ -127,7 +131,7 @@ def arity_probe(rec, c):
                 continue
             params = {"x%d" % i: 1 for i in range(k)}
             # the call at the top of the body, inside a block, inside a loop, and inside the body of another macro (two deep)
-            for where in ("top", "block", "loop", "macro-body", "macro-body-2"):
+            for where in ("top", "block", "loop", "macro-body", "macro-body-2", "own-macro-body"):
                 from jaqalpaq.core import BlockStatement, LoopStatement, Macro
 
                 c2 = Circuit(native_gates=c.native_gates)
@@ -139,13 +143,20 @@ def arity_probe(rec, c):
                     bad = BlockStatement(statements=[bad])
                 elif where == "loop":
                     bad = LoopStatement(2, BlockStatement(statements=[bad]))
+                elif where == "own-macro-body":
+                    # the faulty call stands at the end of the body of one of the program's own macros (a copy of it under
+                    # the same name), and that macro is called
+                    host = next(iter(c.macros.values()))
+                    c2.macros[host.name] = Macro(host.name, list(host.parameters), BlockStatement(
+                        parallel=host.body.parallel, statements=list(host.body.statements) + ([bad] if not host.body.parallel else [BlockStatement(statements=[bad])])))
+                    bad = GateStatement(c2.macros[host.name], {p_.name: 0 for p_ in host.parameters})
                 elif where.startswith("macro-body"):
-                    w1 = Macro("vfwrap1", [], BlockStatement(statements=[bad]))
-                    c2.macros["vfwrap1"] = w1
+                    w1 = Macro(wn1, [], BlockStatement(statements=[bad]))
+                    c2.macros[wn1] = w1
                     bad = GateStatement(w1, {})
                     if where == "macro-body-2":
-                        w2 = Macro("vfwrap2", [], BlockStatement(statements=[LoopStatement(1, BlockStatement(statements=[bad]))]))
-                        c2.macros["vfwrap2"] = w2
+                        w2 = Macro(wn2, [], BlockStatement(statements=[LoopStatement(1, BlockStatement(statements=[bad]))]))
+                        c2.macros[wn2] = w2
                         bad = GateStatement(w2, {})
                 c2.body.statements.append(bad)
                 rec.count("wrong-arity-probes")
@@ -238,8 +249,16 @@ def process(ctx, case, seen, probe=True):
     if probe and macros:
         o = lib.outcome(lib.parse, sx.to_text(prog))
         if o[0] == "ok":
+            before = lib.outcome(lib.expand_macros, o[1])
             for clause, detail in arity_probe(rec, o[1]):
                 rec.violation(sig("C04", clause), detail, case)
+            # the refused expansions above leave nothing behind: the valid program expands as it did before them
+            after = lib.outcome(lib.expand_macros, o[1])
+            rec.count("valid-programs-expanded-again-after-refused-expansions")
+            if before[0] == "ok" and after[0] != "ok":
+                rec.violation(sig("C04", "valid-program-refused-after-refused-expansions"), {"error": str(after[1:3])[:300], "text": sx.to_text(prog)}, case)
+            elif before[0] == "ok" and lib.generate(before[1]) != lib.generate(after[1]):
+                rec.violation(sig("C04", "expansion-differs-after-refused-expansions"), {"text": sx.to_text(prog)}, case)
 
 
 def shard(ctx):
